@@ -344,9 +344,11 @@ Definition line_edge_ok (l : list setting) (r : region_view) : bool :=
   | _, _ => true
   end.
 
+(* writing mode, text alignment and display alignment are what the settings call for *)
+Definition region_align_ok (l : list setting) (r : region_view) : bool :=
+  (rv_mode r =? mode_spec l) && (rv_text r =? text_spec l) && (rv_display r =? display_spec l).
 Definition region_ok (l : list setting) (r : region_view) : bool :=
-  region_inside r && (rv_mode r =? mode_spec l) && (rv_text r =? text_spec l) &&
-  (rv_display r =? display_spec l) && line_edge_ok l r.
+  region_inside r && region_align_ok l r && line_edge_ok l r.
 
 (* ================================================================ files *)
 Record cue := mkCue {
